@@ -16,7 +16,7 @@ from vlib import gen
 from vlib.extract import Package
 
 SDL = """
-type Query { ping(id: ID, n: Int, tags: [String!], f: Filter, e: Color, fs: [Filter!], camelCase: Int, in: String, _under: Int, opt: [[Int]], req: [Int], rec: Rec, d: Date, b: Boolean, ni: Int): Int }
+type Query { ping(id: ID, n: Int, tags: [String!], f: Filter, e: Color, fs: [Filter!], camelCase: Int, in: String, _under: Int, opt: [[Int]], req: [Int], rec: Rec, d: Date, b: Boolean, ni: Int, mix: [Filter], grid: [[Filter!]]): Int }
 enum Color { RED GREEN in }
 scalar Date
 input Filter { a: Int! = 3, b: [Filter!], c: Color = GREEN, camelCase: String, in: Int }
@@ -28,6 +28,7 @@ query V2($f: Filter, $e: Color = RED, $fs: [Filter!]!) { ping(f: $f, e: $e, fs: 
 query V3($camelCase: Int, $in: String, $_under: Int) { ping(camelCase: $camelCase, in: $in, _under: $_under) }
 query V4($opt: [[Int]], $req: [Int]!, $rec: Rec) { ping(opt: $opt, req: $req, rec: $rec) }
 query V5($d: Date, $b: Boolean!, $ni: Int! = 7) { ping(d: $d, b: $b, ni: $ni) }
+query V6($mix: [Filter], $grid: [[Filter!]]) { ping(mix: $mix, grid: $grid) }
 """
 OMIT, NULL = "__omit__", "__null__"
 
@@ -51,6 +52,8 @@ VALUES = {
     "d": [("s", lambda p: "2020-01-01", "2020-01-01"), ("o", lambda p: {"k": [1]}, {"k": [1]})],
     "b": [("t", lambda p: True, True), ("f", lambda p: False, False)],
     "ni": [("i", lambda p: 9, 9)],
+    "mix": [("null_first", lambda p: [None, p.Filter(a=2)], [None, {"a": 2}]), ("model_last", lambda p: [p.Filter(), None, p.Filter(c=None)], [{}, None, {"c": None}])],
+    "grid": [("nested", lambda p: [[p.Filter(a=1)], None, [p.Filter(a=2), p.Filter()]], [[{"a": 1}], None, [{"a": 2}, {}]]), ("empty_inner", lambda p: [[], [p.Filter(a=3)]], [[], [{"a": 3}]])],
 }
 
 _PKGS = {}
